@@ -14,7 +14,7 @@
    "Every edge entry is a pair of vertex ids" is a typing fact of the model (ce : list (nat*nat));
    on the implementation's raw column it is part of the checker ([IsPairTree]). *)
 From Coq Require Import List ZArith Bool Arith Lia.
-From GV Require Import Lib.Tree Model.Gen Proofs.GenP Proofs.GenC02P.
+From GV Require Import Lib.Tree Model.Gen Proofs.GenP Proofs.GenC02P Proofs.GenC02ZP.
 Import ListNotations.
 
 (* fast / network generator: for ALL inputs, callbacks and shuffle outcomes of a run that returns *)
@@ -141,3 +141,49 @@ Proof.
         repeat (destruct Hx as [<-|Hx]; [|try contradiction]); repeat (destruct Hy as [<-|Hy]; [|try contradiction]);
         cbn; discriminate.
 Qed.
+
+(* ================================================================== large outputs: the checker over Z *)
+(* c02_okb runs on unary naturals and is quadratic in the number of motifs; edge lists with more than 2^16 motifs
+   (where a fixed-width id column would wrap) are judged by c02_okz / entry c02_check_ids: integers as Z, one pass
+   over the rows, one merge sort of the block ids.  Inputs: one name code per topology, the logged callback results
+   (callback index, edges) in call order, the three observed columns.  It is SOUND: whatever it accepts, the verified
+   checker c02_okb accepts on the nat image of the columns, so Spec_C02 holds for the block decomposition given by
+   the logged calls: parallel columns, every edge entry a pair, block a = exactly the edges of call a with the name
+   of its topology and one id, ids of different blocks different (hence the rows sharing an id are one block: C02_ids). *)
+Theorem C02_big_checker_implies_checker : forall names results ce_raw cn ci,
+  c02_okz names results ce_raw cn ci = true ->
+  c02_okb false (names_img names) (map res_img results) ce_raw (map Z.to_nat cn) (map Z.to_nat ci) = true.
+Proof. exact c02_okz_implies_okb. Qed.
+Print Assumptions C02_big_checker_implies_checker.
+
+Theorem C02_big_checker_sound : forall names results ce_raw cn ci,
+  c02_okz names results ce_raw cn ci = true ->
+  Forall IsPairTree ce_raw /\
+  Spec_C02 false (names_img names) (map res_img results) (map t_pair ce_raw) (map Z.to_nat cn) (map Z.to_nat ci).
+Proof. exact c02_okz_sound. Qed.
+Print Assumptions C02_big_checker_sound.
+
+(* on the integers themselves: one id per non-empty block, pairwise different and non-negative *)
+Theorem C02_big_checker_ids_distinct : forall names results ce_raw cn ci,
+  c02_okz names results ce_raw cn ci = true ->
+  exists heads, blocks_okz names results (map t_zpair ce_raw) cn ci = Some heads /\ NoDup heads /\
+                forall h, In h heads -> (0 <= h)%Z.
+Proof. exact c02_okz_ids_distinct. Qed.
+Print Assumptions C02_big_checker_ids_distinct.
+
+(* the sort-based distinctness test is sound *)
+Theorem C02_nodupz_sound : forall l, nodupz l = true -> NoDup l.
+Proof. exact nodupz_NoDup. Qed.
+Print Assumptions C02_nodupz_sound.
+
+(* non-vacuity: three 2-cliques and a triangle with ids beyond 2^16 are accepted; the same columns with the id of
+   the last block wrapped to the id of the first one (65536 -> 0 in a uint16 column) are rejected, and so are rows of
+   one block carrying two ids and a name column of the wrong length *)
+Example C02_big_checker_examples :
+  let results := [(0, [(5, 140000)]%Z); (0, [(7, 8)]%Z); (1, [(1, 2); (1, 3); (2, 3)]%Z); (0, [(9, 70000)]%Z)] in
+  let ce := [L [I 5; I 140000]; L [I 7; I 8]; L [I 1; I 2]; L [I 1; I 3]; L [I 2; I 3]; L [I 9; I 70000]]%Z in
+  c02_okz [11; 12]%Z results ce [11; 11; 12; 12; 12; 11]%Z [0; 1; 65535; 65535; 65535; 65536]%Z = true /\
+  c02_okz [11; 12]%Z results ce [11; 11; 12; 12; 12; 11]%Z [0; 1; 65535; 65535; 65535; 0]%Z = false /\
+  c02_okz [11; 12]%Z results ce [11; 11; 12; 12; 12; 11]%Z [0; 1; 65535; 65534; 65535; 65536]%Z = false /\
+  c02_okz [11; 12]%Z results ce [11; 11; 12; 12; 12]%Z [0; 1; 65535; 65535; 65535; 65536]%Z = false.
+Proof. vm_compute. repeat split. Qed.
